@@ -262,3 +262,90 @@ GROUPS.append(Group('J1', 'parse_graphic_sequence agrees with a terminal reading
                     ['parse_graphic_sequence', '_AnsiControlFn.seq_starts_with_fn', 'AnsiSetting.__init__'], j1_items, j1_task,
                     bounds='code lists of length <=4/6 with symbolic values 0..255, given as list of ints, list of strings, or '
                     '";"-separated string; both add_erroneous modes', assumes=['T1']))
+
+
+# ============================================================================================= P3: set_ansi_str on structured input
+CL_P3 = [
+    Clause('base-text-is-input-minus-sgr-sequences', 'post_parse_text'),
+    Clause('each-character-has-the-terminal-state', 'post_parse_char_state', forall='parse_k_range'),
+    Clause('plain-text-unchanged-and-unformatted', 'post_parse_plain_unformatted'),
+    Clause('wf', 'post_self_wf'),
+]
+
+
+def sgr_rope(c, tag, spec):
+    """ESC [ ... m with one entry per letter of spec: s = a single symbolic code 0..110 that is not 38/48/58,
+    c = 38|48|58;5;n, g = 38|48|58;2;r;g;b, e = an empty parameter, z = the literal 0"""
+    atoms = [('lit', '\x1b[')]
+    for i, ch in enumerate(spec):
+        if i:
+            atoms.append(('lit', ';'))
+        nm = '%s_%d' % (tag, i)
+        if ch == 's':
+            code = c.named_int(nm, 0, 110)
+            c.assume(b_and(i_cmp('!=', code, 38), i_cmp('!=', code, 48), i_cmp('!=', code, 58)))
+            atoms.append(('istr', code))
+        elif ch == 'c':
+            atoms.append(('lit', '%d;5;' % [38, 48, 58][c.choice(3)]))
+            atoms.append(('istr', c.named_int(nm, 0, 255)))
+        elif ch == 'g':
+            atoms.append(('lit', '%d;2;' % [38, 48, 58][c.choice(3)]))
+            for j, x in enumerate('rgb'):
+                if j:
+                    atoms.append(('lit', ';'))
+                atoms.append(('istr', c.named_int(nm + x, 0, 255)))
+        elif ch == 'z':
+            atoms.append(('lit', '0'))
+        elif ch == 'e':
+            pass
+    atoms.append(('lit', 'm'))
+    return atoms
+
+
+def p3_items(tier):
+    out = [[[], 'plain']]
+    one = ['', 's', 'ss', 'c', 'g', 'sc', 'cs', 'z', 'sz', 'ses']
+    for sp in one:
+        out.append([[sp], 'plain'])
+    two = [['s', 's'], ['s', ''], ['ss', 's'], ['c', 's'], ['s', 'c'], ['s', 'z'], ['g', 'c']]
+    if tier != 'quick':
+        two += [['sc', 's'], ['ss', 'ss'], ['c', 'c'], ['s', 'sg'], ['sz', 's']]
+    for sp in two:
+        out.append([sp, 'plain'])
+    out.append([['s', 's', 's'], 'plain'])
+    out.append([['s'], 'other-csi'])
+    return out
+
+
+def p3_task(envr, item):
+    seqspecs, flavour = item
+
+    def body(c):
+        atoms = []
+        for i, sp in enumerate(seqspecs):
+            T = c.opaque_text('T%d' % i)
+            T.escfree = True
+            atoms.extend(sym.atoms_of(sym.s_opaque(T)))
+            if flavour == 'other-csi' and i == 0:
+                atoms.extend([('lit', '\x1b['), ('istr', c.named_int('cur', 0, 99)), ('lit', 'A')])
+                T2 = c.opaque_text('Tx')
+                T2.escfree = True
+                atoms.extend(sym.atoms_of(sym.s_opaque(T2)))
+            atoms.extend(sgr_rope(c, 'v%d' % i, sp))
+        Tl = c.opaque_text('Tlast')
+        Tl.escfree = True
+        atoms.extend(sym.atoms_of(sym.s_opaque(Tl)))
+        s = sym.mk_rope(atoms)
+        obj = PObj('AnsiString', {'_fmts': PDict(), '_s': ''})
+        run_contract(envr, c, 'AnsiString.set_ansi_str', obj, [s], {}, CL_P3)
+    return ContractRun(body, CL_P3, use=('B1', 'SL', 'K1'), nosumm=('AnsiString.set_ansi_str',))
+
+
+GROUPS.append(Group('P3', 'parsing ANSI-coded input: base text is the input minus its SGR sequences, every character reports the '
+                    'style a terminal would show it with', ['C02', 'C03'], 'B',
+                    ['AnsiString.set_ansi_str', 'parse_graphic_sequence', 'settings_to_dict', 'AnsiString.apply_formatting',
+                     'AnsiString.remove_formatting'], p3_items, p3_task,
+                    bounds='inputs made of 0-3 SGR sequences, each 0-3 parameter groups (a symbolic single code 0..110, 38|48|58;5;n, '
+                    '38|48|58;2;r;g;b, an empty parameter, a literal 0), separated and surrounded by texts of arbitrary length '
+                    '(possibly empty, without ESC); one non-SGR sequence in the text',
+                    assumes=['B1', 'SL', 'T1']))
